@@ -781,6 +781,57 @@ fn normalise(msg: &str) -> String {
     out
 }
 
+/// Stepping mode: every resource is stepped by a thread of its own through the public
+/// `ResourceRunner::tick_with_shared` (what an embedding host does instead of `spawn_with_shared`).
+fn controller_ticks(resources: Vec<ResWorld>, n: usize, interval_ms: i64, ticks: Vec<u64>, obs: SharedObs) {
+    obs.phase("tick-spawn");
+    let shared = match guard_in_task("SharedGlobals::from_runtime", || SharedGlobals::from_runtime(shared_names(n), &resources[0].runtime)) {
+        Ok(Ok(s)) => s,
+        Ok(Err(e)) => return obs.violate(Violation::new("harness/shared-globals", e.to_string())),
+        Err(v) => return obs.violate(v),
+    };
+    let mut handles = vec![];
+    for (i, rw) in resources.into_iter().enumerate() {
+        let (sh, obs2) = (shared.clone(), obs.clone());
+        let k = ticks.get(i).copied().unwrap_or(1);
+        let mut runner = ResourceRunner::new(rw.runtime, ManualClock::new(), Duration::from_millis(interval_ms));
+        handles.push(verif_hooks::sync_std::thread::spawn(move || {
+            for _ in 0..k {
+                if let Err(e) = runner.tick_with_shared(&sh) {
+                    obs2.violate(Violation::new("tick/error", format!("resource {i}: {e:?}")));
+                    return;
+                }
+                obs2.inc("ticks");
+            }
+        }));
+    }
+    obs.phase("tick-join");
+    for h in handles {
+        let _ = h.join();
+    }
+    obs.phase("tick-final");
+    let get = |name: &str| -> i128 { shared.get(name).as_ref().and_then(world::as_i128).unwrap_or(i128::MIN) };
+    let total: i128 = ticks.iter().take(n).map(|k| *k as i128).sum();
+    let (sh, a, b, torn) = (get("shared"), get("a"), get("b"), get("torn"));
+    obs.ev(format!("final shared={sh} a={a} b={b} torn={torn} ticks={ticks:?}"));
+    obs.inc("probe.two-or-more-resources-cycled");
+    if sh != total || a != total {
+        return obs.violate(Violation::new(
+            "shared/lost-update/tick",
+            format!("{n} resources stepped {ticks:?} times through tick_with_shared: shared = {sh}, a = {a}, expected {total} (every cycle adds 1)"),
+        ));
+    }
+    if a != b || torn != 0 {
+        return obs.violate(Violation::new("shared/torn-pair/tick", format!("a = {a}, b = {b}, torn = {torn}")));
+    }
+    for i in 0..n {
+        let c = get(&format!("cnt_{}", i + 1));
+        if c != ticks.get(i).copied().unwrap_or(1) as i128 {
+            return obs.violate(Violation::new("shared/lost-update/tick", format!("cnt_{} = {c}, resource {i} was stepped {} times", i + 1, ticks.get(i).copied().unwrap_or(1))));
+        }
+    }
+}
+
 fn controller(world: World, obs: SharedObs) {
     let World { n, interval_ms, n_gates, resources, script, final_order } = world;
     let interval = Duration::from_millis(interval_ms);
@@ -963,6 +1014,13 @@ impl Check for C20Check {
         }
         let mut final_order: Vec<usize> = (0..n).collect();
         ops.shuffle(&mut final_order);
+        let mut tk = rng.fork("ticks");
+        if tk.chance(1, 8) {
+            // stepping mode: no faults, no gates, no debugger - only the shared-globals exchange under interleavings
+            let resources: Vec<Json> = (0..n).map(|_| json!({"gate": null, "debug": false, "fault_at": null, "fault_kind": "div0", "retain_ms": null})).collect();
+            let ticks: Vec<u64> = (0..n).map(|_| tk.range(1, 4) as u64).collect();
+            return json!({"interval_ms": interval_ms, "gates": 0, "resources": resources, "script": [], "final_order": final_order, "ticks": ticks, "sched": SchedSpec::generate(&mut sch).to_json()});
+        }
         json!({
             "interval_ms": interval_ms,
             "gates": n_gates,
@@ -1005,6 +1063,7 @@ impl Check for C20Check {
             "probe.two-or-more-resources-cycled",
             "fault.cycle-fault-div0",
             "fault.cycle-panic",
+            "probe.stepped-through-tick-with-shared",
         ] {
             stats.add(key, 0);
         }
@@ -1046,7 +1105,15 @@ impl Check for C20Check {
         };
         let obs = SharedObs::new();
         let obs2 = obs.clone();
-        let report = engine_b::run_execution(&spec, MAX_STEPS, move || controller(world, obs2));
+        let ticks: Option<Vec<u64>> = case["ticks"].as_array().map(|a| a.iter().map(|v| v.as_u64().unwrap_or(1)).collect());
+        let report = match ticks {
+            Some(t) => {
+                stats.inc("probe.stepped-through-tick-with-shared");
+                let World { resources, n, interval_ms, .. } = world;
+                engine_b::run_execution(&spec, MAX_STEPS, move || controller_ticks(resources, n, interval_ms, t, obs2))
+            }
+            None => engine_b::run_execution(&spec, MAX_STEPS, move || controller(world, obs2)),
+        };
         engine_b::feed_stats(stats, &obs, &report);
         stats.inc(&format!("scheduler.{}", spec.kind));
         let (violation, phase, events) = {
